@@ -48,14 +48,19 @@ def cases(tier, seed):
 
 # further layouts of per-line files: an empty line after the last document, no newline after the last document, one
 # single-line file per document
-EXTRA_LAYOUTS = ["lines-blank-end", "lines-no-newline", "lines-files"]
+EXTRA_LAYOUTS = ["lines-blank-end", "lines-no-newline", "lines-files", "whole-nested", "whole-filepath"]
+
+
+def layout_of(c, k):
+    lay = EXTRA_LAYOUTS[k % len(EXTRA_LAYOUTS)]
+    return "whole-nested" if lay == "whole-filepath" and len(c["docs"]) != 1 else lay
 
 
 def observe(cs):
     chunk = 25
     work = [{"cid": "f%d" % k, "op": "fieldmap", "timeout": 900,
              "cases": [{"docs": c["docs"], "field_mapping": fieldmap.to_field_mapping(c["map"], fieldmap.FORMS[(k + j) % len(fieldmap.FORMS)]),
-                        "modes": ["whole", "lines", EXTRA_LAYOUTS[(k + j) % len(EXTRA_LAYOUTS)]]}
+                        "modes": ["whole", "lines", layout_of(c, k + j)]}
                        for j, c in enumerate(cs[k:k + chunk])]}
             for k in range(0, len(cs), chunk)]
     res = learner.run_cases(work, parallel=14)
@@ -116,8 +121,9 @@ def run(chk, tier, seed):
                    "small exhaustive family (each optional key absent / null; empty / absent arrays at every level); mappings written "
                    "in three surface forms of the same documented meaning (plain strings and omitted key_value / explicit nulls / "
                    "every position an array); each case "
-                   "in whole-file and one-JSON-per-line mode, plus one further per-line file layout (empty line after the last "
-                   "document / no final newline / one single-line file per document); non-trivial = at least two spans extracted",
+                   "in whole-file and one-JSON-per-line mode, plus one further file layout (empty line after the last "
+                   "document / no final newline / one single-line file per document / nested sub-directories / a single file given "
+                   "by filepath); non-trivial = at least two spans extracted",
            "records_flattened_by_the_specification": nrec, "exhaustive": False}
     return cov, ["all array prefixes of a mapping lie on one chain (resource_spans -> scope_spans -> spans)",
                  "key values of a lookup are unique inside their attribute array; documents contain no booleans",
